@@ -37,7 +37,8 @@ TRIAGE = [
     (r"^vm::Vm::prepare_eval$", r"unwrap", INV_PUT),
     (r"^vm::builtin::procedure::(eval|apply|call_cc)$", r"Overflow\(Sub\)", INV_IP + " (a builtin runs after the CALL opcode was read)"),
     (r"^vm::builtin::string::char_substring_offset$", r"Overflow\(Sub\)", "end is given only together with start; equal indices return early and end < start is rejected, so end >= 1 here"),
-    (r"^vm::builtin::string::(string_list|string_copy)$", r"index", OFFS),
+    (r"^vm::builtin::string::(string_list|string_copy|string_vector)$", r"index", OFFS),
+    (r"^vm::builtin::string::vector_string$", r"unwrap", "the index ranges over start..end and end <= v.len() was checked just above (end defaults to v.len()), so Vector::get is Some"),
     (r"^vm::builtin::string::(string_fill|string_set)$", r"string-edit", OFFS),
     (r"^vm::builtin::vector::vector_mut_copy$", r".", "start < from.len() and end <= from.len() and start <= end were checked just above (end defaults to from.len()), at < to.len(); i ranges over start..end, so i - start does not underflow and at + (i - start) < at + (end - start) <= to.len(); sums of lengths cannot overflow"),
     (r"^vm::compare::<Vm>::compare_vector$", r"unwrap", "idx < left.len() and left.len() == right.len() was tested just above"),
